@@ -33,7 +33,11 @@ RULE_ADDED = (
               ' '
               'Round 8: twelve kinds of wrong echo (incl. the right bytes followed by a status '
               'word, by padding, twice); every third device holds wallet keys with marker-like '
-              'coordinates. ')
+              'coordinates. '
+              ' '
+              'Round 9: half of the SGX onboardings have a second operator who gets the device '
+              'if the host is free while the first is at a prompt; a third of the command-line '
+              'cells carry -v. ')
 RULE = RULE + " " + RULE_ADDED.strip()
 ASSUMPTIONS = [
     "simulated devices (pv/simdev) trusted; operator input is scripted, an exhausted script "
@@ -258,7 +262,18 @@ def run_cell(acc, cell, tmpdir, seed):
                  cmds=[("%02x" % a[1]) for a in cmds][:60])
         acc.violation(mech, d, case)
 
+    second = {"served": False, "tried": 0}
     with UrandomLog() as ur, AdminEnv(dev, plat) as ae:
+        if plat == "sgx" and cmd == "onboard" and zlib.crc32(repr(cell).encode()) % 2 == 0:
+            # the SGX host serves one client at a time.  While the operator of this tool is
+            # at a prompt, a second operator tries to onboard the same device: served only
+            # if the host is free at that moment, i.e. if this tool let go of its connection
+            def second_operator():
+                second["tried"] += 1
+                if not ae.connection_open() and not dev.onboarded and not second["served"]:
+                    second["served"] = True
+                    dev.onboarded = True
+            ae.on_prompt = second_operator
         # every third cell goes through the tool's own command line (argument parser,
         # defaults, dispatch, exit codes) instead of calling the operation directly
         via_cli = (zlib.crc32(repr(cell).encode()) % 3 == 0) and \
@@ -289,6 +304,13 @@ def run_cell(acc, cell, tmpdir, seed):
             seqs.append((None, bytes(buf[i] for i in sorted(buf))))
         return seqs
 
+    if second["tried"]:
+        acc.count("onboardings_with_a_second_operator_at_the_prompts")
+    if second["served"] and any(c in DESTRUCTIVE for c in codes):
+        return bad("onboarding-material-sent-to-a-device-somebody-else-onboarded-meanwhile:"
+                   "host-left-free-during-the-prompts")
+    if second["served"]:
+        return
     if cmd == "onboard":
         if src == "prompt" and anyp and plat == "ledger" and len(pin) > 8:
             # the Ledger UI keeps 8 PIN bytes: a longer any-pin PIN cannot be typed
